@@ -36,7 +36,8 @@ REACH = ["_tree:Tree.calc_node_ages", "_tree:Tree.node_ages", "_tree:Tree.intern
          "treemeasure:B1", "treemeasure:colless_tree_imbalance", "treemeasure:pybus_harvey_gamma", "treemeasure:N_bar",
          "treemeasure:sackin_index", "treemeasure:treeness"]
 MIN_EVENTS = {"ages-compared": (500, 15000), "threshold-accept-judged": (500, 8000), "threshold-reject-judged": (500, 5000),
-              "statistic-compared": (5000, 150000), "lineages-compared": (2000, 60000), "forcing-compared": (300, 8000)}
+              "statistic-compared": (5000, 150000), "lineages-compared": (2000, 60000), "forcing-compared": (300, 8000),
+              "tree-with-root-edge-length": (500, 2000)}
 ASSUMPTIONS = ["formulas: Sackin/Colless normalisations after Blum & Francois 2006 / Kirkpatrick & Slatkin 1993, B1 after Shao & Sokal 1990, gamma after Pybus & Harvey 2000",
                "dyadic heights make reference arithmetic exact; float cases use 1e-9 relative tolerance"]
 EULER = 0.5772156649015328606
@@ -187,6 +188,11 @@ def run_ultrametric(ctx, case, rng):
     from dendropy.utility import error
     dyadic = rng.random() < 0.7
     spec = gen_tree(ctx, rng, dyadic)
+    # a length on the root's own edge (as the simulators and '(...):0.75;' sources leave it) belongs to no root-to-node
+    # path: ages, depths, root distances and lineage counts must not see it (seeded change C17c)
+    if rng.random() < 0.35:
+        spec[2] = rng.choice([0, 0.75, 2, 1.0, 3.5])
+        ctx.ev("tree-with-root-edge-length")
     det = {"tree": ref.to_newick(spec), "dyadic": dyadic}
     tree = fresh(spec)
     lm = live_map(tree, spec)
